@@ -138,6 +138,29 @@ func Resid(pmax, ampl float64) float64 {
 	return v
 }
 
+// RatioResid is the extra tolerance scale of a quotient num/den of two running
+// sums whose terms so far reached |numTerm| <= pmaxNum and |denTerm| <=
+// pmaxDen: d(num/den) = (dnum + (num/den)*dden)/den.
+func RatioResid(pmaxNum, pmaxDen, num, den float64) float64 {
+	if den == 0 {
+		return 0
+	}
+	return Resid(pmaxNum, 1/math.Abs(den)) + Resid(pmaxDen, math.Abs(num/den)/math.Abs(den))
+}
+
+// PrefixAbsMax returns m[i] = max_{j<=i} |xs[j]| over the finite entries.
+func PrefixAbsMax(xs []float64) []float64 {
+	out := make([]float64, len(xs))
+	m := 0.0
+	for i, x := range xs {
+		if a := math.Abs(x); !math.IsNaN(a) && !math.IsInf(a, 0) && a > m {
+			m = a
+		}
+		out[i] = m
+	}
+	return out
+}
+
 // Window returns xs[i-p+1 .. i] (inclusive); the caller guarantees i >= p-1.
 func Window(xs []float64, i, p int) []float64 { return xs[i-p+1 : i+1] }
 
